@@ -25,6 +25,10 @@ regenerates from the current `fmatrixev.hh`; this file adds the control flow:
   diagonal special case;
 * `packRowMajor`, `packColMajor`, `fortranView`, `unpackRowMajor`, … — the row-major ↔ column-major hand-over to LAPACK
   as index arithmetic on flat arrays.
+* `vresize`, `storePrefix`, `nsVecLoop`, `nsStoreVectors`, `nsStep`, `nsRun` — the caller-owned output containers of
+  `DynamicMatrixHelp::eigenValuesNonSym` (a `DynamicVector` of eigenvalues and a `std::vector` of `DynamicVector`s) with
+  `std::vector::resize` semantics, arbitrary content on entry, out-of-bounds access as `none`, and histories of calls
+  that reuse the same containers.
 
 The model describes the code *after* the proposed repairs fixes/C08_*.patch (relative identity threshold, sorted
 3x3 values, column-major copy in DynamicMatrixHelp::eigenValuesNonSym, max-norm preconditioning of the 2x2 path); since thresholds and the sort flag are
